@@ -242,17 +242,20 @@ class Rt:
         self.mon.flush_counters(self.ctx)
         self.mon.uninstall()
 
-    def env(self, kind: str, partials: dict[str, str]) -> Any:
-        return self.envs[kind](loader=self.DictLoader(partials))
+    def env(self, kind: str, partials: dict[str, str], globals: dict[str, Any] | None = None) -> Any:  # noqa: A002
+        if globals is None:
+            return self.envs[kind](loader=self.DictLoader(partials))
+        return self.envs[kind](loader=self.DictLoader(partials), globals=globals)
 
     def run(self, env: Any, source: str, data: dict[str, Any], mode: str = "sync",
-            own: bool = False, plan: FaultPlan | None = None) -> Res:
+            own: bool = False, plan: FaultPlan | None = None,
+            tglobals: dict[str, Any] | None = None) -> Res:
         mon = self.mon
         res = Res()
         mon.begin()
         self.ctx.ev()
         try:
-            t = env.from_string(source)
+            t = env.from_string(source) if tglobals is None else env.from_string(source, globals=tglobals)
         except self.LiquidError as e:
             res.err = "parse:" + type(e).__name__
             res.liquid = True
@@ -698,13 +701,54 @@ class Pair:
         return {k.split(":")[1] for k, _s in self.body if ":" in k} | (set(POOL) if any(k == "dump" for k, _ in self.body) else set())
 
 
+FALSY = {"nn": None, "ee": {}, "ff": False, "zs": "", "el": []}
+LAYER_NAMES = ["all-empty", "env-globals-only", "template-globals-only", "falsy-args",
+               "empty-env-and-template-dicts", "falsy-env-globals", "falsy-template-globals",
+               "split-over-three-layers", "falsy-args+env-globals"]
+
+
+def layer_config(name: str, data: dict[str, Any]) -> dict[str, Any]:
+    """Where the top-level data lives: render arguments / environment globals / template
+    globals, each present, empty or holding only falsy values."""
+    if name == "full":
+        return {"name": name, "args": data, "env": None, "tmpl": None}
+    if name == "all-empty":
+        return {"name": name, "args": {}, "env": None, "tmpl": None}
+    if name == "env-globals-only":
+        return {"name": name, "args": {}, "env": data, "tmpl": None}
+    if name == "template-globals-only":
+        return {"name": name, "args": {}, "env": None, "tmpl": data}
+    if name == "falsy-args":
+        return {"name": name, "args": dict(FALSY), "env": None, "tmpl": None}
+    if name == "empty-env-and-template-dicts":
+        return {"name": name, "args": {}, "env": {}, "tmpl": {}}
+    if name == "falsy-env-globals":
+        return {"name": name, "args": {}, "env": dict(FALSY), "tmpl": None}
+    if name == "falsy-template-globals":
+        return {"name": name, "args": {}, "env": None, "tmpl": {"nn": None}}
+    if name == "falsy-args+env-globals":
+        return {"name": name, "args": {"nn": None}, "env": data, "tmpl": None}
+    keys = sorted(data)
+    return {"name": name, "args": {k: data[k] for k in keys[0::3]}, "env": {k: data[k] for k in keys[1::3]},
+            "tmpl": {k: data[k] for k in keys[2::3]}}
+
+
 class PairCheck:
     """Evaluates O1 and O2 for a pair (optionally on reduced prefix/body/wraps)."""
 
-    def __init__(self, rt: Rt, pair: Pair, mode: str):
+    def __init__(self, rt: Rt, pair: Pair, mode: str, layers: dict[str, Any] | None = None):
         self.rt = rt
         self.pair = pair
         self.mode = mode
+        self.layers = layers or layer_config("full", pair.data)
+
+    def witness_base(self, parts: dict[str, str]) -> dict[str, Any]:
+        lay = self.layers
+        return {"partials": parts, "data": lay["args"], "env_globals": lay["env"], "template_globals": lay["tmpl"],
+                "data_layers": lay["name"], "env": self.pair.env_kind, "mode": self.mode}
+
+    def key_suffix(self) -> str:
+        return "" if self.layers["name"] == "full" else f"@data={self.layers['name']}"
 
     def sources(self, prefix=None, body=None, wraps=None, suffix: bool = True) -> tuple[dict[str, str], dict[str, str]]:
         parts: dict[str, str] = {}
@@ -721,15 +765,16 @@ class PairCheck:
                  report_frames: bool = True) -> dict[str, Any]:
         rt = self.rt
         p = self.pair
-        env = rt.env(p.env_kind, parts)
+        lay = self.layers
+        env = rt.env(p.env_kind, parts, lay["env"])
         outs: dict[str, Res] = {}
         for name, src in srcs.items():
-            res = rt.run(env, src, p.data, self.mode, own=own and name == "v1")
+            res = rt.run(env, src, lay["args"], self.mode, own=own and name == "v1", tglobals=lay["tmpl"])
             outs[name] = res
             if res.events and report_frames:
-                rt.frame_report(res, {"source": src, "partials": parts, "data": p.data,
-                                      "env": p.env_kind, "mode": self.mode, "own": own and name == "v1",
-                                      "fault": None})
+                w = self.witness_base(parts)
+                w.update({"source": src, "own": own and name == "v1", "fault": None})
+                rt.frame_report(res, w)
         verdict: dict[str, Any] = {"o1": None, "o2": None, "errors": [n for n, r in outs.items() if not r.ok],
                                    "outs": {n: (r.out if r.ok else "ERR:" + r.err) for n, r in outs.items()}}
         if verdict["errors"]:
@@ -773,17 +818,50 @@ def run_pair(rt: Rt, seed: str, j: int, tier: str) -> None:
     ctx.count("pairs")
     if any(w["kind"] == "block" for w in pair.wraps):
         ctx.count("pairs_inside_overriding_block")
+    nest = [f"{w['kind']}[{w.get('form', w.get('entry', ''))}]" for w in pair.wraps
+            if w["kind"] in ("macro", "render") or (w["kind"] == "block" and w["entry"] == "render")]
+    iso = len(nest)
+    if iso:
+        ctx.count("pairs_nested_isolation_depth_ge2")
+        ctx.seen("isolation_nests", ">".join(nest + [pair.construct]))
+    if iso >= 2:
+        ctx.count("pairs_nested_isolation_depth_ge3")
     ctx.count("o1_regions_compared", 2 * v["n_regions"])
     if pair.caller_names(pair.prefix, pair.wraps) & pair.body_names():
         ctx.nt(sorted(srcs.items()), sorted(parts.items()), sorted(pair.data), mode)
     if j % 211 == 0:
         ctx.sample({"oracle": "O1/O2", "v1": srcs["v1"], "v2": srcs["v2"], "partials": parts, "mode": mode,
                     "v1_output": v["outs"]["v1"]})
-    base = {"partials": parts, "data": pair.data, "env": pair.env_kind, "mode": mode, "gen": [seed, j]}
+    base = chk.witness_base(parts)
+    base["gen"] = [seed, j]
     if v["o1"]:
         report_o1(rt, chk, v, base)
     if v["o2"]:
         report_o2(rt, chk, v, base)
+    # the same pair with the top-level data living elsewhere / empty / falsy (every second pair:
+    # completely empty data, so that every mapping on the globals chain is falsy)
+    lname = "all-empty" if j % 2 == 0 else LAYER_NAMES[1 + (j // 2) % (len(LAYER_NAMES) - 1)]
+    chk2 = PairCheck(rt, pair, mode, layer_config(lname, pair.data))
+    v2 = chk2.evaluate(srcs, parts, own=(j % 5 == 0))
+    ctx.seen("data_layer_configs", lname)
+    if v2["errors"]:
+        ctx.count("pairs_with_render_error")
+        ctx.note(f"pair {seed}:{j} data={lname} did not render: {v2['errors']} "
+                 f"{[o for o in v2['outs'].values() if o.startswith('ERR')][:2]}")
+    else:
+        ctx.count("pairs_alt_data_layers")
+        ctx.count("pairs_all_empty_data" if lname == "all-empty" else "pairs_other_data_layers")
+        if iso:
+            ctx.count("pairs_nested_isolation_alt_data")
+            if lname == "all-empty":
+                ctx.count("pairs_nested_isolation_all_empty_data")
+        ctx.nt(sorted(srcs.items()), sorted(parts.items()), lname, mode)
+        base2 = chk2.witness_base(parts)
+        base2["gen"] = [seed, j]
+        if v2["o1"]:
+            report_o1(rt, chk2, v2, base2)
+        if v2["o2"]:
+            report_o2(rt, chk2, v2, base2)
     # fault injection on variant 1 (harness-owned context)
     if j % 4 == 0:
         fault_sweep(rt, pair.env_kind, srcs["v1"], parts, pair.data, mode,
@@ -847,9 +925,9 @@ def _minimise_pair(chk: PairCheck, which: str, full: bool = True) -> tuple[list,
     return prefix, body, wraps, suffix
 
 
-def _o1_key(pair: Pair, prefix: list, wraps: list) -> str:
+def _o1_key(pair: Pair, prefix: list, wraps: list, suffix: str = "") -> str:
     leaks = sorted({PREFIX_LEAK[st["kind"]] for st in prefix} | {PREFIX_LEAK["wrap:" + w["kind"]] for w in wraps})
-    return f"O1:{pair.construct}:{'+'.join(leaks) if leaks else 'differs-from-bare-caller'}"
+    return f"O1:{pair.construct}:{'+'.join(leaks) if leaks else 'differs-from-bare-caller'}{suffix}"
 
 
 def _referenced(srcs: dict[str, str], parts: dict[str, str]) -> dict[str, str]:
@@ -869,12 +947,12 @@ def report_o1(rt: Rt, chk: PairCheck, v: dict[str, Any], base: dict[str, Any]) -
     pair = chk.pair
     # name the mechanism cheaply; spend the full minimisation only on the first few witnesses
     prefix, body, wraps, suffix = _minimise_pair(chk, "o1", full=False)
-    key = _o1_key(pair, prefix, wraps)
+    key = _o1_key(pair, prefix, wraps, chk.key_suffix())
     seen = rt.key_counts.get(key, 0)
     rt.key_counts[key] = seen + 1
     if seen < 3:
         prefix, body, wraps, suffix = _minimise_pair(chk, "o1", full=True)
-        key = _o1_key(pair, prefix, wraps)
+        key = _o1_key(pair, prefix, wraps, chk.key_suffix())
     srcs, parts = chk.sources(prefix, body, wraps, suffix)
     srcs.pop("v1_without_tag", None)
     parts = _referenced(srcs, parts)
@@ -895,7 +973,7 @@ def report_o2(rt: Rt, chk: PairCheck, v: dict[str, Any], base: dict[str, Any]) -
     pair = chk.pair
     prefix, body, wraps, _suffix = _minimise_pair(chk, "o2")
     kinds = sorted({k.split(":")[0] for k, _s in body} - {"dump", "read"}) or sorted({k.split(":")[0] for k, _s in body})
-    key = f"O2:{pair.construct}:{'+'.join(kinds)}-escaped"
+    key = f"O2:{pair.construct}:{'+'.join(kinds)}-escaped{chk.key_suffix()}"
     srcs, parts = chk.sources(prefix, body, wraps)
     v2 = chk.evaluate(srcs, parts, report_frames=False)
     wit = dict(base)
